@@ -281,7 +281,6 @@ func codecCase(rep *Report, s *glue.Subject, d MD, idx int) {
 		exp, expIR = wantQ, vq
 		pan, pmsg = safely(func() { S = newOf(s.Zero); Fill(fastView, S, vq) })
 	}
-	_ = expIR
 	routeName := []string{"struct", "slow-set", "fast-set"}[route]
 	rep.Count("C01", "route/"+routeName, 1)
 	if pan {
@@ -483,7 +482,7 @@ func codecCase(rep *Report, s *glue.Subject, d MD, idx int) {
 		plainOuts := map[string]struct{}{}
 		for hi := 0; hi < h; hi++ {
 			var H proto.Message
-			sv := shuffled(v, r)
+			sv := shuffled(expIR, r)
 			switch hi % 3 {
 			case 0:
 				H = BuildStruct(s.Zero, sv)
@@ -497,7 +496,7 @@ func codecCase(rep *Report, s *glue.Subject, d MD, idx int) {
 					continue
 				}
 			}
-			if hi == 3 {
+			if hi == 3 && !(route == 0 && snan) { // Clone goes through protoreflect.Value, which quiets float32 sNaNs
 				H = proto.Clone(H)
 			}
 			for k := 0; k < reps; k++ {
